@@ -1366,7 +1366,8 @@ pub fn gen_response(rng: &mut Rng) -> Response<'static> {
             None
         } else {
             let mut m: HashMap<Cow<str>, Cow<str>> = HashMap::new();
-            for _ in 0..1 + rng.below(4) {
+            // (an empty map is what a server that sends only NIL-valued fields parses to)
+            for _ in 0..rng.below(5) {
                 m.insert(Cow::Owned(utf8_any(rng)), Cow::Owned(utf8_any(rng)));
             }
             Some(m)
@@ -1617,8 +1618,15 @@ pub fn enc_response(e: &mut Enc, r: &Response) {
                     if e.vary && e.rng.chance(1, 2) {
                         kv.reverse();
                     }
+                    // fields whose value is NIL are not part of the map: an empty map needs one, others may have some
+                    let nil_first = kv.is_empty() || (e.vary && e.rng.chance(1, 5));
+                    if nil_first {
+                        e.string(b"zz-field-without-value");
+                        sp1(e);
+                        e.nil();
+                    }
                     for (i, (k, v)) in kv.iter().enumerate() {
-                        if i > 0 {
+                        if i > 0 || nil_first {
                             sp1(e);
                         }
                         e.string(k.as_bytes());
